@@ -129,6 +129,10 @@ func LdRead(r *bufio.Reader) ([]byte, error) {
 
 	buf := make([]byte, l)
 	if _, err := io.ReadFull(r, buf); err != nil {
+		if err == io.EOF {
+			// The length prefix promised l > 0 bytes but none followed: this is a truncation, not a clean end.
+			err = io.ErrUnexpectedEOF
+		}
 		return nil, err
 	}
 
